@@ -31,6 +31,7 @@ def run(prog, chk):
         "the font argument is never written (ownership analysis seeded at the filters' font / fonts parameter) (R14.5)",
         "include and exclude together raise ValueError before any predicate is installed (R14.6)",
     ]
+    chk.decided += ["a copied glyph set owns a copy of the layer lib (filters record the curve-type marker there): the layer's own lib is only handed out when no copy was asked for (R14.7)"]
     chk.not_decided += ["that a reported glyph really changed / an unreported one really did not (data dependent)",
                         "effects inside third-party pens and boolean operations"]
     chk.guard(r141, prog, chk)
@@ -42,6 +43,7 @@ def run(prog, chk):
     chk.guard(r144c, prog, chk)
     chk.guard(r145, prog, chk)
     chk.guard(r146, prog, chk)
+    chk.guard(r147, prog, chk)
 
 
 # ----------------------------------------------------------------------------- R14.1
@@ -770,7 +772,37 @@ def _CHAIN(inc, exc):
     return _CHAIN_SRC.replace("INC", inc).replace("EXC", exc)
 
 
+# ----------------------------------------------------------------------------- R14.7
+def r147(prog, chk):
+    """A separate (copied) glyph set shares nothing with the source font that a filter writes to: filters record state in
+    `glyphSet.lib` (the cu2qu curve-type marker), so the copy made by `_GlyphSet.from_layer(copy=True)` owns a copy of the
+    layer lib - the layer's own lib is only handed out when no copy was asked for."""
+    ix = prog.ix
+    f = ix.get_method("ufo2ft.util._GlyphSet", "from_layer", own=True)
+    need("copy" in f.params(), f"cannot interpret {f.short}: no copy parameter")
+    stores = [(s_, t, v) for s_, t, v in attr_stores(f, "lib") if v is not None]
+    need(stores, f"cannot interpret {f.short}: the glyph set's lib is never set")
+    n = 0
+    for s_, t, v in stores:
+        fs = facts(prog, f, s_)
+        only_without_copy = any(o == "falsy" and l == "copy" for o, l, r in fs)
+        is_copy = every_origin(prog, f, v, lambda x, ff: isinstance(x, ast.Call) and (A.callee_name(x) in ("deepcopy", "copy", "dict") or T(x.func).endswith(".copy")), allow_const=False)[0]
+        n += 1
+        chk.ob("R14.7", f"{f.short}|{T(s_, 40)}|a copied glyph set owns its lib", bool(only_without_copy or is_copy), where(f, s_), detail=f"copy asked for: {'no' if only_without_copy else 'possibly'}; value is a copy: {bool(is_copy)}",
+               message=f"{f.short}: `{T(s_, 60)}` can run when a copy was asked for and hands the copied glyph set the layer's own lib: a filter that records something in glyphSet.lib "
+                       f"(the cu2qu curve-type marker) then writes into the source font although it was given a separate glyph set - and finds its own marker there on the next run")
+    # and filters that write to the glyph set's lib do exist: keep the premise visible
+    writers = [fi for fi in ix.functions.values() if not isinstance(fi.node, ast.Lambda) and fi.module.name.startswith("ufo2ft.filters.")
+               and any(isinstance(x, ast.Subscript) and isinstance(x.ctx, ast.Store) and T(x.value).endswith(".lib") for x in ast.walk(fi.node))]
+    chk.ob("R14.7", "filters write to the glyph set's lib (premise)", True, where(writers[0]) if writers else "", detail=f"{len(writers)} filter function(s) store into a .lib")
+    chk.minimum("R14.7", 2)
+
+
 MUTANTS = [
+    M("copied glyph sets share the layer lib with the source font (seeded C14n)", "ufo2ft/util.py", "_GlyphSet.from_layer",
+      "self.lib = deepcopy(layer.lib)", "self.lib = layer.lib", rule="R14.7"),
+    M("layer lib copied with dict()", "ufo2ft/util.py", "_GlyphSet.from_layer",
+      "self.lib = deepcopy(layer.lib)", "self.lib = deepcopy(dict(layer.lib))", kind="equiv"),
     M("decompose filter reports a change only when contours were added (seeded C14m)", "ufo2ft/filters/decomposeComponents.py", "DecomposeComponentsFilter.filter",
       "decomposeCompositeGlyph(glyph, self.context.glyphSet)\nreturn True", "numContours = len(glyph)\ndecomposeCompositeGlyph(glyph, self.context.glyphSet)\nreturn len(glyph) != numContours", rule="R14.4"),
     M("missing bases resolved from the source font's default layer through a ChainMap (seeded C14l)", "ufo2ft/filters/propagateAnchors.py", "PropagateAnchorsFilter.set_context",
